@@ -36,6 +36,7 @@ type Sorts struct {
 	tags      map[string]int // type string → interface tag
 	tagNames  []string
 	tagTypes  map[string]types.Type
+	elts      map[Sort]bool
 	ghostDecl map[string][]ghostFieldDecl // readable struct name → ghost fields
 }
 
@@ -51,6 +52,7 @@ func NewSorts() *Sorts {
 		boxes:     map[Sort]bool{},
 		tags:      map[string]int{},
 		tagTypes:  map[string]types.Type{},
+		elts:      map[Sort]bool{},
 		ghostDecl: map[string][]ghostFieldDecl{},
 	}
 	s.decls = append(s.decls,
@@ -319,9 +321,33 @@ func (s *Sorts) Unbox(v Term, so Sort) Term {
 	return App("unbox!"+sanitize(string(so)), so, v)
 }
 
+// Elt is the element i of the array arr viewed through offset off:
+// select(arr, off+i), kept behind a function symbol so that quantifiers over
+// element indices have usable triggers.
+func (s *Sorts) Elt(arr, off, i Term) Term {
+	_, es, ok := arr.Sort.IsArray()
+	if !ok {
+		panic("Elt on non-array " + string(arr.Sort))
+	}
+	s.elts[es] = true
+	return App("elt!"+sanitize(string(es)), es, arr, off, i)
+}
+
 // Decls returns all sort declarations plus box/unbox functions.
 func (s *Sorts) Decls() []string {
 	out := append([]string{}, s.decls...)
+	var es []string
+	for e := range s.elts {
+		es = append(es, string(e))
+	}
+	sort.Strings(es)
+	for _, e := range es {
+		n := sanitize(e)
+		out = append(out,
+			fmt.Sprintf("(declare-fun elt!%s ((Array Int %s) Int Int) %s)", n, e, e),
+			fmt.Sprintf("(assert (forall ((a (Array Int %s)) (o Int) (i Int)) (! (= (elt!%s a o i) (select a (+ o i))) :pattern ((elt!%s a o i)))))", e, n, n),
+		)
+	}
 	var bs []string
 	for b := range s.boxes {
 		bs = append(bs, string(b))
